@@ -409,9 +409,7 @@ impl CodegenContext {
                     Some(existing) => {
                         if existing.ty != symbol.ty
                             || existing.read_only() != symbol.read_only()
-                            || (existing.pass_idx == symbol.pass_idx
-                                && existing.data != symbol.data
-                                && existing.read_only())
+                            || (existing.pass_idx == symbol.pass_idx && existing.read_only())
                         {
                             let span = symbol.span.expect("no span provided");
                             return Err(Diagnostic::error()
